@@ -80,6 +80,9 @@ class TW(object):
     async def hop(self, depth, key):
         """to_thread/from_thread ping-pong of the given alternation depth, ending parked."""
         self.expected_parked += 1
+        # the same task function may run in several sibling tasks: one chain per task
+        self.hop_serial = getattr(self, "hop_serial", 0) + 1
+        key = (key, self.hop_serial)
         self.hops[key] = depth
         t = self.trio.lowlevel.current_task()
         self.info.setdefault(t, {})["blocks"] = ("hop", depth, key)
@@ -123,11 +126,14 @@ class TrioGen(object):
             body.append("    " * ind + "async with trio.open_nursery() as n%d:" % k)
             ind += 1
             nchild = t.weighted([1, 3, 2, 1]) if k == nn - 1 or t.choose(2) else 0
+            child = None
             for c in range(nchild):
                 if self.ntasks > 12:
                     break
                 self.ntasks += 1
-                child = self.task_fn(depth + 1)
+                if child is None or t.choose(3) != 0:
+                    child = self.task_fn(depth + 1)
+                # (otherwise: the same function again - sibling tasks with equal names)
                 body.append("    " * ind + "n%d.start_soon(%s, W)" % (k, child))
         # how the innermost body ends
         end = t.weighted([3, 3, 1, 1, 1, 1])
